@@ -63,6 +63,9 @@ SMT_TEXTS = {
     "s1": "(declare-fun a () Bool) (declare-fun x () Int) (define-fun g ((z Int)) Int (+ z 1)) "
           "(assert (let ((w (g x))) (forall ((q Int)) (=> a (< q w)))))",
     "s2": "(declare-fun u () (_ BitVec 2)) (push 1) (assert (bvult u (bvadd u #b01))) (pop 1) (assert (= u #b10))",
+    # w, k are bound by let / define-fun in the other texts: here they are free (a leaked binding would show)
+    "s4": "(declare-fun x () Int) (declare-fun s () String) (assert (and (> x w) (= s k)))",
+    "s5": "(declare-fun s () String) (assert (= s w))",
     "s3": "(set-logic QF_LRA) (declare-fun r () Real) (define-fun k () Real 2) (assert (let ((w (+ r k))) (> w 3)))",
 }
 HR_TEXTS = {"h1": "(a & (x + 1 <= y)) | (! b)", "h2": "(x * 2 = y) -> (a <-> b)"}
